@@ -230,6 +230,10 @@ METHODS = ["copy", "hardlink", "symlink"]
 
 def gen_scenario(rng, idx):
     sc = {"idx": idx, "files": {}, "gitignores": [], "cmds": []}
+    # a quarter of the histories run with git.auto_commit=false, git.auto_stage=true: xvc then stages what it
+    # would have committed, and the index shows directly whether the cache or a data file got in
+    if rng.random() < 0.25:
+        sc["stage_only"] = True
     pool = list(FILE_POOL)
     special = rng.random() < 0.08
     for p in rng.sample(pool, rng.randint(4, 9)):
@@ -429,7 +433,8 @@ def run_scenario(xvc, sc, flags, model):
                         C.rm_rf(rp.path(".xvc", cd))
             gis0, dirs0, id0 = snapshot(rp.root)
             argv = [os.path.join(rp.base, "storage") if a == "@STORAGE" else a for a in cmd["argv"]]
-            r = rp.xvc(*argv, timeout=300)
+            pre = ["-c", "git.auto_commit=false", "-c", "git.auto_stage=true"] if sc.get("stage_only") else []
+            r = rp.xvc(*(pre + argv), timeout=300)
             if r.timed_out:
                 obs.append({"overloaded": True})
                 return obs
@@ -462,6 +467,12 @@ def run_scenario(xvc, sc, flags, model):
                 staged = [m.group(1) for m in re.finditer(r"^add '(.*)'$", pa.stdout, re.M)]
                 ts = set(tracked)
                 o["staged"] = [p for p in staged if p in ts or any(p.startswith(".xvc/%s/" % c) or p == ".xvc/" + c for c in XVC_CACHE_DIRS)]
+                # ... and what IS in the index after the command (xvc stages or commits by itself)
+                li = subprocess.run(["git", "-c", "core.quotepath=off", "ls-files", "--cached", "-z"], cwd=rp.root, env=dict(C.BASE_ENV, **rp.env),
+                                    text=True, stdout=subprocess.PIPE, stderr=subprocess.PIPE)
+                for p in (x for x in li.stdout.split("\0") if x):
+                    if (p in ts or any(p.startswith(".xvc/%s/" % c) for c in XVC_CACHE_DIRS)) and p not in o["staged"]:
+                        o["staged"].append(p)
                 # what the command did, for the model: directory targets, file targets, materialised paths
                 stages = []
                 regular0 = {p for p, i in id0.items() if i[2] == stat.S_IFREG}
@@ -716,7 +727,7 @@ def judge(chk, model, flags, sc, obs, dist, reported, corpus_name=None, quiet=Fa
         for p in bad:
             klass = None
             if p.startswith(".xvc/"):
-                what = "`git add -A -n` stages the cache path %s after `xvc %s`" % (p, " ".join(o["argv"]))
+                what = "the cache path %s is in the Git index (or `git add -A -n` would stage it) after `xvc %s`" % (p, " ".join(o["argv"]))
             else:
                 klass = classify(model, flags, o, p, mo, history)
                 if klass is None and history.get(p) is False:
